@@ -27,7 +27,7 @@ MANIFEST = {
                  "correspondence with the real CLI tool",
 }
 
-REQUIRED = ["KV.C12.ctl_output", "KV.C12.ctl_no_deadlock", "KV.C12.ctl_terminates", "KV.C12.ctl_queues_are_fifo", "KV.C12.pcqueue_is_fifo", "KV.C12.ctl_output_arpa", "KV.C12.ctl_output_raw",
+REQUIRED = ["KV.C12.ctl_output", "KV.C12.ctl_no_deadlock", "KV.C12.ctl_terminates", "KV.C12.ctl_queues_are_fifo", "KV.C12.pcqueue_is_fifo", "KV.C12.batch_never_exceeds_reserve", "KV.C12.ctl_output_arpa", "KV.C12.ctl_output_raw",
             "KV.C12.Old.not_ctl_no_deadlock", "KV.C12.Old.not_ctl_output_raw", "KV.C12.Old.not_ctl_output_last"]
 
 TIMEOUT = 20
